@@ -772,9 +772,8 @@ func Dress(rnd func(int) int, kind string, rep int, a *Act, earlier []int) {
 	}
 	ks := []int{VkNil, VkTypedNil, VkZeroInt, VkEmptyStr, VkSlice, VkMap, VkFunc, VkStruct, VkSame, VkNil, VkTypedNil}
 	vk := ks[rnd(len(ks))]
-	if vk == VkNil && kind == "syncq" {
-		vk = VkTypedNil // SyncQueue.Pop reports "closed" as a nil item: an untyped nil item is not distinguishable
-	}
+	// SyncQueue.Pop reports "closed" as a nil item: an untyped nil item comes back looking like the
+	// closed report, and Queue.tla's ItemR reads it that way (the item is consumed all the same)
 	same := 0
 	if vk == VkSame {
 		if rep != 2 || len(earlier) == 0 {
